@@ -104,6 +104,7 @@ def load_package():
             raise PyFrontendError('%s does not parse: %s' % (p, e))
         canonical_compares(tree)
         inline_explaining_variables(tree)
+        merge_split_guards(tree)
         pkg.modules[rel] = Module(rel, p, src, tree)
     # stub file for the extension module
     pyi = os.path.join(root, '_C.pyi')
@@ -241,6 +242,68 @@ def canonical_compares(tree):
                     node.left, node.comparators, node.ops = r, [l], [_MIRROR[type(op)]()]
                 elif isinstance(op, (ast.Eq, ast.NotEq, ast.Is, ast.IsNot)):
                     node.left, node.comparators = r, [l]
+    return tree
+
+
+def merge_split_guards(tree):
+    """One guard, one `if` (the Python half of cxx_frontend.merge_split_guards):
+    `if A: (if B: S)` with no else on either is shown as `if A and B: S`; `if A: X` directly
+    followed by `if B: X` with the same single exiting statement X (return / raise / continue /
+    break) as `if A or B: X`.  `and` / `or` evaluate left to right and stop early exactly like the
+    chain of statements."""
+    def plain(s):
+        return isinstance(s, ast.If) and not s.orelse
+
+    def eff(body):
+        return [x for x in body if not isinstance(x, ast.Pass)]
+
+    def exit_only(s):
+        b = eff(s.body)
+        return len(b) == 1 and isinstance(b[0], (ast.Return, ast.Raise, ast.Continue, ast.Break))
+
+    def both(op, a, b):
+        vals = []
+        for v in (a, b):
+            if isinstance(v, ast.BoolOp) and isinstance(v.op, type(op)):
+                vals += v.values
+            else:
+                vals.append(v)
+        return ast.copy_location(ast.BoolOp(op=op, values=vals), a)
+
+    def fix(body):
+        for s_ in body:
+            for fld in ('body', 'orelse', 'finalbody'):
+                b = getattr(s_, fld, None)
+                if isinstance(b, list) and b and isinstance(b[0], ast.stmt):
+                    fix(b)
+            if isinstance(s_, ast.Try):
+                for h in s_.handlers:
+                    fix(h.body)
+            if isinstance(s_, ast.Match):
+                for c in s_.cases:
+                    fix(c.body)
+        for s_ in body:
+            while plain(s_):
+                b = eff(s_.body)
+                if len(b) == 1 and plain(b[0]):
+                    s_.test = both(ast.And(), s_.test, b[0].test)
+                    s_.body = b[0].body
+                else:
+                    break
+        i = 0
+        while i < len(body) - 1:
+            a = body[i]
+            j = i + 1
+            while j < len(body) - 1 and isinstance(body[j], ast.Pass):
+                j += 1
+            c = body[j]
+            if plain(a) and plain(c) and exit_only(a) and exit_only(c) and \
+                    ast.dump(eff(a.body)[0]) == ast.dump(eff(c.body)[0]):
+                a.test = both(ast.Or(), a.test, c.test)
+                del body[i + 1:j + 1]
+                continue
+            i += 1
+    fix(tree.body)
     return tree
 
 
